@@ -32,6 +32,5 @@ ConfigsBug257 == {Cfg("log", 2, 257, FALSE, TRUE)}
 ConfigsSim == {Cfg(k, v, n, c, TRUE) : k \in {"log", "param"}, v \in {1, 2}, n \in {0, 1, 2, 3, 4, 7}, c \in BOOLEAN}
 WindowAll == 0..65535
 WindowBoundary == {0, 1, 253, 254, 255, 256, 257, 299}
-ConfigsProf == {Cfg("param", 2, 40, FALSE, TRUE)}
 ConfigsSmall4 == {Cfg(k, v, n, c, r) : k \in {"log", "param"}, v \in {1, 2}, n \in 0..4, c \in BOOLEAN, r \in BOOLEAN}
 ====
